@@ -43,8 +43,11 @@ def range_number_from_counter(e, label, counter):
     number = counter.get(key, None)
 
     if number is None:
-        number = 1 + sum(1 for o in counter.keys() if o[0] == label)
-        assert number is not None
+        # smallest number that is not in use by a range that is still open
+        used = set(v for k, v in counter.items() if k[0] == label)
+        number = 1
+        while number in used:
+            number += 1
         counter[key] = number
 
     else:
@@ -221,7 +224,11 @@ def make_note_el(note, dur, voice, counter, n_of_staves):
         number = counter.get(tuplet_key, None)
 
         if number is None:
-            number = 1 + sum(1 for o in counter.keys() if o[0] == "tuplet")
+            # smallest number that is not in use by a tuplet that is still open
+            used = set(v for k, v in counter.items() if k[0] == "tuplet")
+            number = 1
+            while number in used:
+                number += 1
             counter[tuplet_key] = number
 
         else:
